@@ -366,6 +366,8 @@ def as_seq(v, st):
     """Val -> (z3 Seq term, elem type) for lists / sequences."""
     if isinstance(v, VSeq):
         return v.t, v.etype
+    if isinstance(v, VDictVal):
+        return v.keys, v.ktype
     if isinstance(v, VRef):
         h = st.heap[v.ref]
         if isinstance(h, HList):
@@ -611,14 +613,25 @@ class SpecEval(object):
                 if f == 'forall':
                     return VBool(z3.ForAll([iv], z3.Implies(rng, body)))
                 return VBool(z3.Exists([iv], z3.And(rng, body)))
-            if f == 'all_bytes':
+            if f == 'evid':
+                # identity of a message value: an opaque event is its own id; an acknowledgement
+                # dict literal {'event_name': N} is identified by 1000000 + N
+                v = self.ev(n.args[0], e)
+                if isinstance(v, VOpaque):
+                    return VInt(v.ident)
+                if isinstance(v, VRef) and isinstance(e.st.heap[v.ref], HDict):
+                    h = e.st.heap[v.ref]
+                    return VInt(1000000 + z3.Select(h.maps[0], z3.StringVal('event_name')))
+                raise SpecError('evid of %r' % (v,))
+            if f in ('all_bytes', 'all_str'):
                 var = n.args[0].value
                 iv = z3.String(fresh_name(var))
+                kind = 'bytes' if f == 'all_bytes' else 'str'
                 e2 = SpecEnv(e.st, dict(e.env), e.old, e.result, e.exc)
-                e2.env[var] = VStr(iv, 'bytes')
+                e2.env[var] = VStr(iv, kind)
                 if e.old is not None:
                     o2 = SpecEnv(e.old.st, dict(e.old.env), None, None)
-                    o2.env[var] = VStr(iv, 'bytes')
+                    o2.env[var] = VStr(iv, kind)
                     e2.old = o2
                 return VBool(z3.ForAll([iv], self.as_bool(self.ev(n.args[1], e2), e2)))
             if f == 'all_int':
